@@ -1028,6 +1028,10 @@ class Interp:
             if r is not None:
                 return r
             cls = base.attrs.get("__class__")
+            if cls is None and base.attrs.get("__repo_instance__"):
+                cls = self.resolve_class(base.tag)
+                if cls is not None:
+                    base.attrs["__class__"] = cls
             if cls is not None:
                 m = self.find_method(cls, attr)
                 if m is not None:
@@ -1049,6 +1053,17 @@ class Interp:
             if r is not None:
                 return r
         return VFunc("method", attr, self_val=base)
+
+    def resolve_class(self, name):
+        from .frontend import MODULE_FILES
+        for mn in MODULE_FILES:
+            try:
+                m = self.repo.module(mn)
+            except Exception:
+                continue
+            if name in m.classes:
+                return VFunc("class", f"{mn}.{name}", node=m.classes[name], data={"module": m})
+        return None
 
     def find_method(self, cls, attr):
         """Resolve attr through a repo class and its repo bases: ('method', info) | ('value', Value)."""
@@ -1222,6 +1237,8 @@ class Interp:
             return self.call_repo(fv, args, kwargs, node)
         if k == "class":
             return self.instantiate(fv, args, kwargs, node)
+        if k == "pyfn":
+            return fv.data(self, args, kwargs, node)
         self.unsupported(node, f"call kind {k}")
 
     def bind_args(self, fargs, args, kwargs, defaults_env, node, fname="f", self_val=None, defaults=None):
@@ -1298,9 +1315,11 @@ class Interp:
 
     def call_uf(self, fv, args, kwargs, node):
         ft = fv.data["type"]
-        if kwargs:
-            self.unsupported(node, "keyword call of an uninterpreted callable")
-        return self.specfuns.apply_uf(self, fv, args, node)
+        if set(kwargs) != set(ft.kw):
+            if self.spec_mode:
+                self.unsupported(node, "keyword mismatch calling an uninterpreted callable")
+            raise PyRaise("TypeError", f"callable expects keywords {sorted(ft.kw)}, got {sorted(kwargs)}", getattr(node, "lineno", None))
+        return self.specfuns.apply_uf(self, fv, list(args) + [kwargs[k] for k in ft.kw], node)
 
     def call_method(self, fv, args, kwargs, node):
         sv = fv.self_val
